@@ -21,6 +21,12 @@ def family():
     from mc.flo import families as F
     yield from F.fam_cond_aux()
     yield from F.fam_cond_aux_fork()
+    for label, prog, meta in F.fam_restart():
+        if "condaux" in label:
+            yield label, prog, meta
+    for label, prog, meta in F.fam_cond_two_plain():
+        if core.TIER != "quick" or label.split("/")[1] in ("repeat1-never", "never-repeat2"):
+            yield label, prog, meta
     for label, prog, meta in F.fam_cond_aux_two():
         # quick: two conditional auxes on the SAME frame, one finishing while the other keeps running
         if core.TIER != "quick" or ("dx0-dy0" in label and label.split("/")[1] in ("repeat1-never", "repeat1-repeat1", "never-repeat1")) \
